@@ -89,7 +89,7 @@ def run_case(case):
                         if rng.random() < case['conv_p']:
                             conv[(b, s, i)] = True
             script = sc.Script(conv=conv, restart={k: True for k in case['restarts']}, dt_new=dict(case['dtnew']))
-        res = sc.run_scripted(ctrl, rec, script, case['t0'], case['tend'], u0=1.0)
+        res = sc.run_scripted(ctrl, rec, script, case['t0'], case['tend'], u0=1.0, max_events=60000)
     except Exception as ex:
         out['error'] = 'setup: %r' % ex
         return out
@@ -152,7 +152,7 @@ def oracle(out):
     out['accepted'] = acc
     if not acc:
         bad.append(('no_accepted_step', '', 'run finished without an accepted step'))
-        return bad
+        return [(k, c, d, name) for k, c, d in bad]
     # tiling
     if float(acc[0]['start']) != float(t0):
         bad.append(('tiling', 'first_start', 'first accepted step starts at %r, t0 = %r' % (acc[0]['start'], t0)))
@@ -198,13 +198,14 @@ def oracle(out):
             if F(t) >= F(tend) and not any(k == 'start_before_Tend' for k, _, _ in bad):
                 bad.append(('start_before_Tend', '', 'a step (slot %d) is started at %r >= Tend = %r' % (s, t, tend)))
     end = acc[-1]['start'] + acc[-1]['dt']
-    if F(end) < F(tend) - F(TOL):
-        bad.append(('stops_early', '', 'last accepted step ends at %r < Tend - tol (Tend = %r)' % (end, tend)))
+    if end < tend - TOL:     # the controller's own tolerance, evaluated in double precision as the code does
+        bad.append(('stops_early', '', 'last accepted step ends at %r < Tend - 10 eps (Tend = %r)' % (end, tend)))
     # step count for a fixed step size
     fixed = not case['restarts'] and not case['dtnew'] and all(x['dt'] == case['dt'] for x in acc)
     if fixed and not case.get('paradiag'):
         dt = case['dt']
-        delta = F(dt) / 10 ** 9
+        # "up to rounding": the rounding of ONE evaluation of t0 + N*dt (a few ulps), not the error accumulated by N additions
+        delta = 8 * F(ulp(max(abs(t0), abs(tend))))
         nstar = max(1, math.ceil((F(tend) - delta - F(t0)) / F(dt)))
         if len(acc) != nstar:
             last = acc[-1]
@@ -212,7 +213,7 @@ def oracle(out):
             if len(acc) == nstar + 1 and F(t0) + nstar * F(dt) >= F(tend) - delta and last['start'] < tend - TOL:
                 cause = 'accumulated_float_time'
             bad.append(('step_count', cause,
-                        '%d accepted steps, smallest N with t0 + N*dt >= Tend (up to 1e-9 dt) is %d; last step starts at %s (t0=%r dt=%r Tend=%r)'
+                        '%d accepted steps, smallest N with t0 + N*dt >= Tend (up to 8 ulp) is %d; last step starts at %s (t0=%r dt=%r Tend=%r)'
                         % (len(acc), nstar, fhex(last['start']), t0, dt, tend)))
     for k in bad:
         pass
@@ -354,8 +355,9 @@ def run(ck):
                tuple(map(tuple, case['dtnew'])), case['paradiag'])
         if out.get('outcome') != 'ok':
             ck.case(key=key, nontrivial=False)
-            ck.violation('run raised %s: %s' % (out.get('outcome'), out.get('error')), {'case': case},
-                         match={'kind': 'exception', 'exception': str(out.get('outcome'))})
+            name = 'controller_ParaDiag_nonMPI' if case.get('paradiag') else 'controller_nonMPI'
+            findings.setdefault(('exception', str(out.get('outcome')), name), []).append(
+                (dict(out, blocks=[]), 'run raised %s: %s' % (out.get('outcome'), out.get('error'))))
             continue
         probs = oracle(out)
         ck.traces += 1
@@ -370,7 +372,7 @@ def run(ck):
         out['oracle_failed'] = bool(probs)
         good.append(out)
     for (kind, cause, name), lst in sorted(findings.items()):
-        out, detail = min(lst, key=lambda x: (x[0]['case']['t0'] != 0.0 and kind == 'step_count', len(x[0]['blocks']), x[0]['case']['P']))
+        out, detail = min(lst, key=lambda x: (abs(x[0]['case']['t0']), x[0]['case']['P'], len(x[0]['blocks'])))
         case = out['case']
         m = {'kind': kind, 'controller': name}
         if cause:
